@@ -84,6 +84,11 @@ pub fn family_cfg(family: &str, seed: u64, big: bool) -> Cfg {
         fuel: 400_000,
         max_commands: if big { 400 } else { 120 },
         lookup_every: 6,
+        fs: if family == "crash" && r.chance(1, 2) {
+            crate::sim::FsCfg { eintr_pct: r.range(0, 10), short_pct: r.range(0, 15), eio_permille: if r.chance(1, 3) { r.range(1, 15) } else { 0 }, enospc_permille: if r.chance(1, 4) { r.range(1, 30) } else { 0 } }
+        } else {
+            crate::sim::FsCfg::default()
+        },
         max_steps,
     }
 }
